@@ -250,7 +250,39 @@ def flush(ctx: Any) -> List[Ob]:
         got = {strip_ret(t) for t in oc}
         want = {('LOOP', 'CLEAR'), ('LOOP', 'DELIVER', 'LOOP', 'CLEAR')}
         obs.append(ob(R, g, 'for pending in self._pending_handlers.items(): deliver(pending); self._pending_handlers.clear()', 'every pending event is delivered once, then the map is cleared, on every path', got == want, f'got {sorted(got)}'))
+    # the event dispatcher hands one event to every subscriber: it calls the subscribers over a snapshot of the handler list
+    # (a subscriber that unregisters itself from inside its callback must not make the next one miss the event -- that
+    # subscriber would later be told Removed for an instance it was never told was Added), calls each one, and never leaves early
+    from .common import snapshot_iteration
+
+    sig = prog.cls('zeroconf._services.Signal')
+    fire = sig.methods.get('fire')
+    if fire is None:
+        raise AnalysisError('anchor vanished: Signal.fire')
+    sme = fire.params[0]
+    loops_ = [lp for lp in walk_local_ordered(fire.node) if isinstance(lp, ast.For) and any(self_attr(x, sme) == '_handlers' for x in ast.walk(lp.iter))]
+    if not loops_:
+        raise AnalysisError('anchor vanished: the loop over the subscribers in Signal.fire')
+    for lp in loops_:
+        obs.append(ob(R, fire, lp.iter, 'subscribers are called over a snapshot of the handler list', snapshot_iteration(lp.iter, sme, '_handlers')))
+        calls_each = isinstance(lp.target, ast.Name) and len(lp.body) == 1 and isinstance(lp.body[0], ast.Expr) and isinstance(lp.body[0].value, ast.Call) and isinstance(lp.body[0].value.func, ast.Name) and lp.body[0].value.func.id == lp.target.id
+        leaves = any(isinstance(x, (ast.Break, ast.Return, ast.Continue)) for x in ast.walk(lp))
+        obs.append(ob(R, fire, lp, 'every subscriber of the snapshot is called with the event (no filter, no early exit)', (calls_each or _calls_target_on_every_path(ctx, fire, lp)) and not leaves))
     return obs
+
+
+def _calls_target_on_every_path(ctx: Any, f: FuncInfo, lp: ast.For) -> bool:
+    if not isinstance(lp.target, ast.Name):
+        return False
+    cfg = cfg_of(f.node)
+    head = next(n for n in cfg.nodes if n.kind == 'for' and n.ast is lp)
+    tv = lp.target.id
+
+    def eff(node: Any, evl: Any) -> List[Any]:
+        return ['CALL' for c in fd.node_calls(node, evl) if isinstance(c.func, ast.Name) and c.func.id == tv]
+
+    oc, _ = fd.run_paths(ctx.prog, f.module, cfg, {}, eff, start=head, stop=lambda n: n is head, loop_bound=1, for_iter=lambda n, e: True)
+    return {strip_ret(t).count('CALL') for t in oc} == {1}
 
 
 @rule('C04.REPLAY', 'D', expect_min=12)
